@@ -11,7 +11,8 @@ RULE = ('fault-profile scenarios (all verdict kinds, cancellations, timeouts, ra
         'oracle: PassStatistic.worked == steps seen by the wrapped process_result, totally_executed == pool.schedule calls, '
         'failed <= totally_executed, total_seconds >= 0 and sum over passes <= wall time measured around the run; the same '
         'numbers are compared with the Coq model; non-trivial = distinct scenarios with worked > 0, failed > 0 and at least '
-        'one cancelled or never-run candidate')
+        'one cancelled or never-run candidate'
+        ' Also: every tenth run with time.time stepped by an hour back and forth (only the monotonic clock may be used).')
 TRUSTED = T0 + ['time.monotonic is monotone (the theorem quantifies over any monotone clock)']
 ASSUMPTIONS = ['die_on_pass_bug off for the failed<=executed theorem (with it on the round aborts; the bound is still checked on the runs)']
 
